@@ -17,6 +17,10 @@ Theorem tie_cd_venom : tied (tpl_cd_v LCd 0) obs_cd_v_cd0 && tied (tpl_cd_v LCd 
 Proof. vm_compute. reflexivity. Qed.
 Theorem tie_code_venom : tied (tpl_cd_v LCode 0) obs_cd_v_code0 && tied (tpl_cd_v LCode 1) obs_cd_v_code1 = true.
 Proof. vm_compute. reflexivity. Qed.
+(* legacy -O codesize (the copy-the-maximum thresholds move by 45): every 2nd shape + 8 boundary shapes *)
+Theorem tie_cd_legacy_codesize :
+  tied (tpl_cd_l_opt LCd true 0) obs_cd_l_cs_cd0 && tied (tpl_cd_l_opt LCode true 1) obs_cd_l_cs_code1 = true.
+Proof. vm_compute. reflexivity. Qed.
 (* whole family at (calldata, first argument) and (code, second argument); every 4th shape at the other position *)
 Theorem cd_family : (100 <=? zlen obs_cd_l_cd0) = true /\
   map fst obs_cd_l_cd0 = map fst obs_cd_v_cd0 /\ map fst obs_cd_l_cd0 = map fst obs_cd_l_code1 /\
